@@ -35,6 +35,15 @@ def run(ctx):
         for rep in ("unsupportedSecLevels", "decryptionErrors", "wrongDigests", "unknownUserNames", "notInTimeWindows"):
             for op in ("get", "set"):
                 S.append(dict(level="authpriv", hash=h, privmethod=rnd.choice(["verifstream", "verifblock"]), authpw=b"authpw-pr", privpw=b"privpw-pr", op=op, pad=3, prior_report=rep))
+    # encrypted error responses round-trip like any other response (as the documented exception); a second client for the same engine after its restart
+    for h in ("md5", "sha1"):
+        for es in (2, 5, 17, 19):
+            for op in ("get", "set", "walk"):
+                if op == "walk" and es == 2:
+                    continue            # noSuchName ends a walk by design
+                S.append(dict(level="authpriv", hash=h, privmethod=rnd.choice(["verifstream", "verifblock"]), authpw=b"authpw-es", privpw=b"privpw-es", op=op, pad=3, agent_es=es))
+        for op in ("get", "set"):
+            S.append(dict(level="authpriv", hash=h, privmethod=rnd.choice(["verifstream", "verifblock"]), authpw=b"authpw-2c", privpw=b"privpw-2c", op=op, pad=3, second_client=True))
     # histories on one process: same privacy password under MD5 and then SHA-1 localisation (and the reverse), same engine
     for a, b in (("md5", "sha1"), ("sha1", "md5")):
         for op in ("get", "set"):
